@@ -707,10 +707,20 @@ From Interval Require Import Tactic.
 From PP Require Import Model.C01 Model.C01R Proofs.C01.
 Import ListNotations.
 Open Scope R_scope.
+(* expose the real-number expression the model's definitions denote, then let the
+   Interval tactic bound it *)
+Ltac unf_all :=
+  cbv [l2_dual l2_val sumsq l2_tol fold_right map
+       d_add_ad d_add_k d_neg d_sub_ad d_sub_k d_rsub_k d_mul_s d_mul_a d_mul_ad
+       d_powz_k d_powr_k d_pow_k d_pow_ad d_rpow_k d_div_s d_div_a d_div_ad d_rdiv_s
+       d_rdiv_a d_rdiv_ad d_rpow_ad d_fun d_max fval ffac half np_abs np_sign
+       np_heaviside np_isclose0 max_plain pow_plain
+       ROps o0 o1 oadd osub omul odiv oopp opowz orpow oofZ oltb oprim opi primR
+       fst snd].
 Ltac tie_b :=
-  unf; cbn [l2_dual l2_val sumsq l2_tol fold_right map fst snd];
-  unf; unfold acoshR, atanhR, arcsinh, tanh, sinh, cosh;
+  unf_all; unfold acoshR, atanhR, arcsinh, tanh, sinh, cosh;
   rewrite ?acos_asin by lra; rewrite ?asin_atan by lra; unfold Rsqr;
+  repeat (rewrite ltbR_true by interval); cbv beta iota;
   interval.
 """
 
@@ -810,11 +820,6 @@ def tie_b_points(rng, per):
             out.append((f"l2_norm{blk} d/d{k}", f"fst (l2_dual ROps [{duals}])", float(r.val[0]),
                         f"snd (l2_dual ROps [{duals}])", float(J[0, k]), True))
     return out
-
-
-L2_LEMMA = """Lemma l2_switch (a : R) (x y : R) : l2_tol ROps < a -> (if ltbR (l2_tol ROps) a then x else y) = x.
-Proof. intros H. rewrite ltbR_true by exact H. reflexivity. Qed.
-"""
 
 
 def run_tie_b(seed, tier):
@@ -1029,16 +1034,39 @@ class C01(Prop):
         return sum(1 for _ in subtrees(case["tree"])) >= 3
 
     def finding_key(self, case, res, why):
-        ops = sorted({s[0] if s[0] != "fun" else "fun:" + s[1] for s in subtrees(case["tree"])})
-        return "ad-mismatch:" + ",".join(ops)
+        return "ad-value-or-jacobian-mismatch"
 
     def shrink(self, case, still_fails):
-        """Replace the tree by failing sub-trees while the failure persists."""
+        """Failing sub-trees first, then splice out single elementwise nodes."""
         cur = case
-        changed = True
-        while changed:
+
+        def spliced(t):
+            """Trees obtained by replacing one elementwise node by one of its operands."""
+            op = t[0]
+            kids = []          # (position, child) of the sub-expressions
+            if op == "neg" or op in KOPS or op == "powk":
+                kids = [(1, t[1])]
+                yield t[1]
+            elif op in BIN:
+                kids = [(1, t[1]), (2, t[2])]
+                yield t[1]
+                yield t[2]
+            elif op == "maxkl":
+                kids = [(2, t[2])]
+                yield t[2]
+            elif op == "fun":
+                kids = [(3, t[3])]
+                yield t[3]
+            elif op in ("matmul", "slice", "l2"):
+                kids = [(2, t[2])]
+            for pos, k in kids:
+                for k2 in spliced(k):
+                    yield t[:pos] + [k2] + t[pos + 1:]
+
+        for _ in range(200):
             changed = False
-            for s in list(subtrees(cur["tree"]))[1:]:
+            cands = list(subtrees(cur["tree"]))[1:] + list(spliced(cur["tree"]))
+            for s in cands:
                 c = dict(cur, tree=s)
                 try:
                     if still_fails(c):
@@ -1046,6 +1074,8 @@ class C01(Prop):
                         break
                 except Exception:
                     continue
+            if not changed:
+                break
         return cur
 
     def search(self, rng, seeds, budget_s):
